@@ -7,6 +7,7 @@ map with per-name append-only logs; `stepA`).
 import WrglModel.Model.RefStore
 import WrglModel.Spec.RefStore
 import WrglModel.Lemmas.C15
+import WrglModel.Lemmas.C15Fs
 import WrglModel.Gen.Facts
 namespace Wrgl
 
@@ -35,5 +36,50 @@ theorem C15_like_is_not_prefix :
 
 /-- removing a remote filters on `remotes/<r>/`, a prefix that ends at a path boundary -/
 theorem C15_fact_remotePrefixBoundary : Facts.remoteRefsPrefixEndsWithSlash = true := by decide
+
+/-! ### The file-based store (`pkg/ref/fs`) is judged by the same map
+
+`stepAF` (Spec/RefStore.lean) is the oracle of the correspondence runs on the file store. The
+theorems below pin down that it is the abstract map `stepA` except in three documented places,
+and that in those places it still is a map operation (the destination is replaced by the source's
+value and log; nothing else changes hands). -/
+
+/-- the operations whose file-store form is the map's own -/
+def ROp.fsSame : ROp → Bool
+  | .del _ | .rename _ _ | .copy _ _ | .renameAllRemote _ _ => false
+  | _ => true
+
+theorem C15_fs_same_elsewhere (a : ASt) (op : ROp) (h : op.fsSame = true) : stepAF a op = stepA a op := by
+  cases op <;> simp_all [ROp.fsSame, stepAF]
+
+/-- deleting a bound name, renaming or copying onto an unbound name: the map's own step -/
+theorem C15_fs_conservative (a : ASt) :
+    (∀ k, (a.val k).isSome = true → stepAF a (.del k) = stepA a (.del k)) ∧
+    (∀ k, a.val k = none → stepAF a (.del k) = (a, .err)) ∧
+    (∀ o n, a.val n = none → stepAF a (.rename o n) = stepA a (.rename o n)) ∧
+    (∀ s d, a.val d = none → stepAF a (.copy s d) = stepA a (.copy s d)) := by
+  refine ⟨?_, ?_, ?_, ?_⟩
+  · intro k h; simp [stepAF, h]
+  · intro k h; simp [stepAF, h]
+  · intro o n h; simp [stepAF, h]
+  · intro s d h; simp [stepAF, h]
+
+/-- rename onto a bound destination replaces it: the destination ends with the source's value and
+    log, the source is gone with its log -/
+theorem C15_fs_rename_replaces (a : ASt) (o n : Name) (v : Bytes) (ho : a.val o = some v)
+    (hn : (a.val n).isSome = true) (hne : o ≠ n) :
+    (stepAF a (.rename o n)).2 = .ok ∧ (stepAF a (.rename o n)).1.val n = some v ∧
+    (stepAF a (.rename o n)).1.log n = a.log o ∧
+    (stepAF a (.rename o n)).1.val o = none ∧ (stepAF a (.rename o n)).1.log o = [] :=
+  fs_rename_replaces a o n v ho hn hne
+
+/-- copy onto a bound destination replaces it: the destination ends with the source's value and
+    log, the source keeps both -/
+theorem C15_fs_copy_replaces (a : ASt) (s d : Name) (v : Bytes) (hs : a.val s = some v)
+    (hd : (a.val d).isSome = true) (hne : s ≠ d) :
+    (stepAF a (.copy s d)).2 = .ok ∧ (stepAF a (.copy s d)).1.val d = some v ∧
+    (stepAF a (.copy s d)).1.log d = a.log s ∧
+    (stepAF a (.copy s d)).1.val s = some v ∧ (stepAF a (.copy s d)).1.log s = a.log s :=
+  fs_copy_replaces a s d v hs hd hne
 
 end Wrgl
